@@ -747,6 +747,24 @@ func (env *SpecEnv) evalCall(n *ast.CallExpr) (Val, types.Type, error) {
 		}
 		ev := e.S.elemVar(sl.Elem())
 		return Val{T: fmt.Sprintf("(= (select %s (sl_base %s)) (select %s (sl_base %s)))", e.hget(env.heap, ev), a.T, e.hget(env.old.heap, ev), a.T)}, tBool, nil
+	case "subslice":
+		// subslice(a, b, k): a is the part b[k : k+len(a)] of b (same storage)
+		a, at, err := argv(0)
+		if err != nil {
+			return Val{}, nil, err
+		}
+		b, _, err := argv(1)
+		if err != nil {
+			return Val{}, nil, err
+		}
+		k, _, err := argv(2)
+		if err != nil {
+			return Val{}, nil, err
+		}
+		if _, ok := at.Underlying().(*types.Slice); !ok {
+			return Val{}, nil, fmt.Errorf("subslice on %s", at)
+		}
+		return Val{T: fmt.Sprintf("(and (= (sl_base %s) (sl_base %s)) (= (sl_off %s) (+ (sl_off %s) %s)) (<= 0 %s) (<= (+ %s (sl_len %s)) (sl_len %s)))", a.T, b.T, a.T, b.T, k.T, k.T, k.T, a.T, b.T)}, tBool, nil
 	case "base":
 		// base(x): identity of the backing array of slice x (0 for nil)
 		a, at, err := argv(0)
